@@ -873,6 +873,22 @@ impl ArchiveIndexBuilder {
 
     /// Build index and write to writer
     pub fn build<W: Write + Seek>(mut self, mut writer: W) -> ArchiveResult<ArchiveIndex> {
+        // An offset that does not fit the offset field would be stored cut down to
+        // the field width: refuse it instead of writing a different value
+        if self.offset_bytes < 8 {
+            let max_offset = (1u64 << (8 * u32::from(self.offset_bytes))) - 1;
+            if let Some(entry) = self
+                .entries
+                .iter()
+                .find(|e| e.archive_index.is_none() && e.offset > max_offset)
+            {
+                return Err(ArchiveError::InvalidFormat(format!(
+                    "Offset {} does not fit in {} offset bytes",
+                    entry.offset, self.offset_bytes
+                )));
+            }
+        }
+
         // Sort entries by encoding key
         self.entries.sort();
 
